@@ -4,7 +4,8 @@
    reference semantics Spec.v on generated syntax trees (end to end, all starts, all captures).  What is *proved* about
    that last link are the single-character atoms, carried all the way from the atom as written to the bytes of the
    text: a literal character (with and without i, Unicode and legacy mode), the dot, and a v-mode class expression
-   without \q strings (this one in both directions), and concatenations of these atoms.  On any well-formed UTF-8 text, with the cursor in front of a character, the
+   without \q strings (this one in both directions), concatenations of these atoms, and alternations of such
+   concatenations.  On any well-formed UTF-8 text, with the cursor in front of a character, the
    IR node the parser model emits for the class (Model/ClassSet.v, tied to parse.rs by IR equality on every generated
    expression) and the reference semantics of the class take the same decision on that character and move to
    corresponding positions - the reference from character index i to i+1, the IR from the byte offset of character i
@@ -91,6 +92,19 @@ Proof.
   intros foldf unicode utf16 cs eqclass Hw rs ns ts H3 f f' i caps G Hf Hi.
   exact (sequence_of_atoms foldf unicode utf16 cs eqclass rs ns ts H3 f f' i caps G Hf Hi).
 Qed.
+
+(* alternations of such sequences, as the parser builds them (each alternative through make_cat: the atom itself, Empty
+   or the flat Cat; the alternatives through make_alt: a balanced Alt tree) against the right-nested tree the reference
+   is given: both yield the results of the alternatives in order, positions corresponding through off.
+   den r n P kr kn (SeqSim.v) says: from fuel kr the reference results of r from any state are the positions P of the
+   state with the captures carried along, and from fuel kn the IR results of n from byte offset off(i) are the same
+   positions through off. *)
+Theorem c01_alternation_of_sequences_is_the_reference : forall foldf unicode utf16 cs eqclass rss nss tss,
+  Forall3 (Forall3 (atom foldf unicode utf16 cs eqclass)) rss nss tss -> rss <> [] ->
+  forall fuel, (length nss <= fuel)%nat -> forall m, Forall (fun rs => (length rs <= m)%nat) rss ->
+  den foldf unicode utf16 cs eqclass (alt_of (map seq_of rss)) (make_alt fuel (map make_cat nss))
+      (catP (map (fun ts i => pchain cs ts [i]) tss)) (m + length rss) (1 + fuel).
+Proof. exact alternation_of_terms. Qed.
 
 (* the three kinds of atoms *)
 Theorem c01_atoms : forall foldf utf16 cs, wf_text cs ->
